@@ -20,7 +20,7 @@ func init() {
 			`R09.4 safeKeeperReader.offset mirrors the wrapped reader's position: Seek stores the result of the inner Seek, Read adds the inner Read's count, and every construction site initialises offset from a Seek on the same reader; R09.6 the chunk size of the bsdiff read cache (lrufile.New) is a constant that divides pwr.BlockSize, so that a chunk-aligned chunk read never covers a block the safekeeper's per-offset validation did not check; R09.7 the data validateBlock hands to the block validator is its buffer cut at the count the read into that buffer returned. ` +
 			`R09.8 the signed length is enforced: in Read the block validation and the read of the wrapped reader are dominated by a branch on a value computed from the offset and the signed size (so the end of the signed file is an end of file, whatever the block arithmetic says), the buffer handed to the wrapped reader is cut at a bound computed from the signed size, and in validateBlock the error of the read that fills the block buffer is returned only when it is not an end-of-file sentinel (a short block is judged). ` +
 			`R05.1 (shared, tightened) the block validator declares a block healthy only under index-in-range and strong-hash equality; an empty buffer excuses that only beyond the signed block count. ` +
-			`R18.7 (shared) each file's hash group ends with the file's last block. R09.9 among what decides whether validateBlock judges a block (guards of the ValidateAsError call, followed through merged flags and expanded helpers) there is no <, <=, >, >= on the block index. R18.8 (shared) strong hashes are computed on every call. NOT decided: that every damage is noticed (depends on which blocks a patch reads), the verdict cache, the arithmetic of the remaining-bytes bound.`,
+			`R18.7 (shared) each file's hash group ends with the file's last block. R09.9 among what decides whether validateBlock judges a block (guards of the ValidateAsError call, followed through merged flags and expanded helpers) there is no <, <=, >, >= on the block index. R18.8 (shared) strong hashes are computed on every call. R07.4 (shared) the safekeeper's GetReader positions the read-seeker it gets from its own GetReadSeeker before handing it out as a plain reader. NOT decided: that every damage is noticed (depends on which blocks a patch reads), the verdict cache, the arithmetic of the remaining-bytes bound.`,
 		Assumptions: []string{"the wrapped reader is the field rs of safeKeeperReader; the inner pool is the field inner of safeKeeper"},
 		Run:         runC09,
 	})
@@ -41,6 +41,7 @@ func runC09(c *core.Ctx) {
 	ruleNoSharedPackageState(c)
 	ruleStrongHashIsComputedEachTime(c, "R18.8")
 	ruleVerdictsAreNotExtrapolated(c, "R09.9")
+	ruleRewindBeforeLinearRead(c, "R07.4")
 	read := c.P.Fn("pwr", "safeKeeperReader.Read")
 	seek := c.P.Fn("pwr", "safeKeeperReader.Seek")
 	vb := c.P.Fn("pwr", "safeKeeper.validateBlock")
